@@ -191,7 +191,7 @@ fn check_system(rep: &mut Report, seed: u64, index: u64, solver_seed: u64, tier:
 
 pub fn run(tier: Tier, seed: u64, replay: Option<serde_json::Value>) -> i32 {
     let mut rep = Report::new("C03", tier, seed, "translation_validation");
-    let n = tier.pick(200u64, 4000u64);
+    let n = tier.pick(200u64, 800u64);
     let mut indices: Vec<u64> = (0..n).collect();
     let mut solver_seeds: Vec<u64> = tier.pick(vec![1, 2], vec![1, 2, 3]);
     for pi in 0..c02::probe_count() {
